@@ -15,7 +15,8 @@ from fractions import Fraction
 import numpy as np
 
 RULE = ("seeded random + stratified ballot profiles (ties, k winners, approval ballots, blanks, ballots lacking the "
-        "contest, every truthy/falsy mark encoding, exact-threshold super-majority profiles); non-trivial = at least "
+        "contest, every truthy/falsy mark encoding, exact-threshold super-majority profiles, write-in-only ballots in 30 % "
+        "of profiles); non-trivial = at least "
         "two candidates received votes or the profile sits on a tie / exact threshold; distinct = hash of the profile")
 REQUIRED = ["iff_checked:plurality", "iff_checked:approval", "iff_checked:supermajority", "range_values_checked",
             "margin_checked:oracle_tally", "margin_checked:contest_tally_rules_off", "margin_checked:contest_tally_rules_on",
